@@ -31,6 +31,15 @@ FINITE = [
 ]
 
 
+# a reaction with a delayed part, run through the simulators that have no delay queue: both parts happen at the firing
+# time, so the master equation is the one of the net stoichiometry
+FINITE_DELAYED = {"species": ["A", "B"], "reactions": [
+    {"reactants": ["A"], "products": [], "dreactants": [], "dproducts": ["B"], "prop": {"type": "massaction", "k": "k0"},
+     "delay": {"type": "fixed", "delay": "tau"}},
+    {"reactants": ["B"], "products": ["A"], "prop": {"type": "massaction", "k": "k1"}}],
+    "params": {"k0": 1.0, "k1": 0.5, "tau": 0.7}, "ic": {"A": 5, "B": 0}}
+
+
 def corr_network(ctx, spec, T, seeds, safe=False):
     ctx.begin_case({"spec": spec, "grid": [float(t) for t in T], "seeds": seeds, "safe": safe})
     M = build_model(spec)
@@ -136,6 +145,8 @@ def run(ctx):
         cme_test(ctx, spec, [0.3, 1.0, 2.5], nruns, 1000 * ctx.seed + 17 * k + 1)
     cme_test(ctx, FINITE[0], [0.75, 1.25, 2.5], nruns, 1000 * ctx.seed + 777, offset=True)
     cme_test(ctx, FINITE[1], [0.1, 0.3, 0.6, 1.0, 2.5], nruns, 1000 * ctx.seed + 555, sim_kind="volume")
+    cme_test(ctx, FINITE_DELAYED, [0.3, 1.0, 2.5], nruns, 1000 * ctx.seed + 333)
+    cme_test(ctx, FINITE_DELAYED, [0.3, 1.0, 2.5], nruns, 1000 * ctx.seed + 444, sim_kind="volume")
 
 
 def replay(ctx, obj):
